@@ -55,6 +55,21 @@ NOTES = {
              'attr_chain added) and the limit is left to jedi',
     'C16r2': 'caught by the direct observation of every setting / switch after every query (Switch.tla SwitchRestored) and by '
              'the two-module dynamic-parameter source, both added while the trial was queued',
+    # ---- round 3 (ten properties, a third change each, aimed at combinations of conditions)
+    'C03r3': 'missed at first (no default values in lambda headers); caught after lambda headers got defaults (huse items) in '
+             'Scoping.tla and in the random programs',
+    'C04r3': 'missed at first (instance attributes were only assigned directly in __init__); caught after the hierarchies '
+             'assign them through helper methods, closures over self, loop targets and tuple targets',
+    'C05r3': 'missed at first: the failing inputs fall into the known-finding families param-rebound / class-attr, which hid '
+             'the additional breakage; caught after two shape programs (class attribute computed from the module variable of the '
+             'same name, parameter re-bound from itself) whose unchanged-tree deviations are listed by EXACT key',
+    'C06r3': 'missed at first (no coroutines in the templates); caught after the template with undecorated / decorated / '
+             'nested / static async methods and a module-level async def',
+    'C10r3': 'missed at first (sys.path order always alphabetical, clashes across roots rare); caught after the reversed root '
+             'order shape in Imports.tla and mirrored nodes across the roots in the random trees',
+    'C17r3': 'the signature time-cache key made comparable again (as C08 / C11 round 1): not seen by the C17 check (its '
+             'histories ask get_names / imports / search, not signatures at one call site), caught by the C08 and C11 checks, '
+             'the properties the mechanism belongs to',
     'C20r2': 'same aliasing as C09 (round 1); caught by the path clauses; the settings-unchanged-by-use clauses (p2 / rt2) '
              'were added as well',
 }
